@@ -454,8 +454,13 @@ fn c15_hamming(c: &mut Case) -> Result<(), String> {
     let len = if c.rng.chance(2, 3) { *c.rng.pick(&fixed) } else { c.rng.below(2600) };
     let extra = c.rng.below(70);
     let back1 = c.rng.bases(len + extra, 4);
-    let ds1 = DnaString::from_bytes(&back1);
-    let off1 = c.rng.below(extra + 1);
+    // half of the time through the exact-capacity constructor, and often ending exactly at the end
+    let ds1 = if c.rng.chance(1, 2) {
+        DnaString::from_bytes(&back1)
+    } else {
+        DnaString::from_acgt_bytes(&back1.iter().map(|b| b"ACGT"[*b as usize]).collect::<Vec<u8>>())
+    };
+    let off1 = if c.rng.chance(1, 3) { extra } else { c.rng.below(extra + 1) };
     let a = View { start: off1, length: len, is_rc: c.rng.chance(1, 3) };
     let ma = model_view(&back1, &a);
     // second operand: a copy with mismatches planted at chosen places, stored at an unrelated offset, maybe rc'd
